@@ -400,3 +400,50 @@ def build():
                      modifies=lambda c: {'ghost:cfg_log': [c.old.attr(c.p.self, 'cfg')], 'list': (lambda a: z3.Or(a == S.addr(c.p.global_special_stmts), a >= c.old.next, a == S.addr(c.p.parent_stmts))),
                                          'attr:stmt': (lambda a: a >= c.old.next), 'attr:edge': (lambda a: a >= c.old.next)}))
     return reg
+
+
+def bounded_family(tier, seed):
+    """BOUNDED stand-in (never counted as proved) for what the proofs assume — analyze_block's recursion and the composition of the handlers: every method body of a small
+    program family through the REAL ControlFlowAnalysis, DataModel and GIRBlockViewer against a reference interpreter (all branch-decision vectors)"""
+    from lianvc import runner
+    size = '3' if tier == 'quick' else '5'
+    out, err = runner.run_replay(REPLAY, ['--bounded', size], timeout=3000)
+    if out is None:
+        return dict(name='composition of the CFG handlers vs reference executions', failed=True, is_violation=False, detail=err, bound=f'size {size}')
+    return dict(name='composition of the CFG handlers (analyze_block recursion) vs reference executions', kind='bounded', bound=out.get('bound'), cases=out.get('cases'),
+                failed=bool(out.get('witnesses')), is_violation=True, detail=out.get('witnesses', [])[:2], failing_input=(out.get('witnesses') or [None])[0])
+
+
+bounded_family.quick = True
+BOUNDED_CHECKS = [bounded_family]
+
+ASSUMPTIONS = [
+    'analyze_block is under an ASSUMED contract (append-only effects on the edge log and the collector; result is the given frontier or a fresh list): the handlers call it and it '
+    'dispatches back to the handlers; the induction over the block structure (First/Exits/Step of the structured semantics, "every execution is a path") is NOT proved — it is '
+    'checked only by the bounded stand-in on a small program family',
+    'the graph is read through the ghost log of ControlFlowGraph.add_edge calls; that each logged call adds the corresponding networkx edges is BasicGraph.add_edge (not under '
+    'contract: it normalises rows/ids/lists and recurses over lists) + _add_one_edge (proved); self-loops are dropped by _add_one_edge (a loop whose body frontier is the header '
+    'itself gets no header->header edge)',
+    'analyze_switch_stmt, analyze_try_stmt, analyze_yield_stmt, analyze_method_decl_stmt, analyze_decl_stmt, analyze_init_block, analyze() '
+    '(exit edge, goto/label rewiring, merge_multiple_edges_between_two_nodes) are not under contract',
+    'GIRBlockViewer.read_block / len / boundary_of_multi_blocks are uninterpreted; block ids are ints, NaN or None; statement rows are heap objects with the listed columns',
+    'the "endless loop" test is textual (`condition in ("true", "True")`): a Python VARIABLE named `true` used as a loop condition is treated as the literal and the loop gets no '
+    'normal exit (seen by a sub-agent on the unchanged tree; outside the contracts, which take the textual test as the definition of a literal-true condition)',
+    'nothing about the frontends: the Python frontend drops the else body of `for ... else` (its statements are missing from the GIR); "in every frontend" is not decided',
+]
+EXPLANATION = ('Deductive proof on the real control_flow.py of the edge-producing handlers (frontier linking, return/break/continue, loop closing with LOOP_BACK/CONTINUE edges, '
+               'breaks and the normal exit in the result, while/for-in with else bodies, if arms) over a ghost log of add_edge calls, and of _add_one_edge against the networkx '
+               'edge relation. The recursion through analyze_block is assumed; the composition is covered by a bounded stand-in (reference interpreter).')
+QUICK_CANARIES = {
+    'ControlFlowAnalysis.link_parent_stmts_to_current_stmt': ['negate-condition', 'delete-stmt[self.cfg.add_edge(node.stmt, current_stmt, node.edge)]'],
+    'ControlFlowAnalysis.analyze_return_stmt': ['delete-stmt[self.cfg.add_edge(current_stmt, -1, CONTROL_FLOW_KIND.RETURN)]', 'delete-stmt[self.link_parent_stmts_to_current_stmt(parent_stmts, current_stmt)]'],
+    'ControlFlowAnalysis.analyze_break_stmt': ['delete-stmt[global_special_stmts.append(current_stmt)]'],
+    'ControlFlowAnalysis.deal_with_last_stmts_of_loop_body': ['negate-condition', 'flip-comparison', 'delete-stmt[result.append(CFGNode(current_stmt, CONTROL_FLOW_KIND.LOOP_FALSE))]',
+                                                              'delete-stmt[del special_stmts[counter]]'],
+    'ControlFlowAnalysis.analyze_while_stmt': ['negate-condition', 'delete-stmt[last_stmts.pop()]'],
+    'ControlFlowAnalysis.analyze_dowhile_stmt': ['delete-stmt[previous.append(CFGNode(current_stmt, CONTROL_FLOW_KIND.LOOP_TRUE))]', 'delete-stmt[new_special_stmts = []]'],
+    'ControlFlowAnalysis.analyze_for_stmt': ['negate-condition', 'flip-comparison'],
+    'BasicGraph._add_one_edge': ['flip-comparison', 'negate-condition'],
+}
+MIN_CANARY_KILL_RATIO = 0.6
+EQUIVALENT_MUTANTS = ('delete-stmt[return True] @L18', 'delete-stmt[return True] @L29')
